@@ -18,6 +18,7 @@ import (
 	"github.com/oasisprotocol/oasis-core/go/common/crypto/signature"
 	"github.com/oasisprotocol/oasis-core/go/common/entity"
 	"github.com/oasisprotocol/oasis-core/go/common/node"
+	"github.com/oasisprotocol/oasis-core/go/common/quantity"
 	consensus "github.com/oasisprotocol/oasis-core/go/consensus/api"
 	"github.com/oasisprotocol/oasis-core/go/consensus/api/transaction"
 	cmt "github.com/oasisprotocol/oasis-core/go/consensus/cometbft/api"
@@ -102,6 +103,8 @@ type txFuzzer struct {
 	synth   []*chainsim.GenTx            // synthesized seeds (unsigned)
 	fuzzOn  bool
 	nextIdx int
+	// fuzzBlocks counts the fuzzed blocks so far (the fee grid runs in every fourth).
+	fuzzBlocks int
 
 	cur     []*fuzzIn
 	curMap  map[string]*fuzzIn
@@ -413,6 +416,47 @@ func (f *txFuzzer) gen(rng *rand.Rand, base []*chainsim.GenTx, nn *nonces) *Inpu
 	return &Input{Data: f.envelope(signer, encodeTx(nonce, fee, method, body)), Aux: aux("body"), Op: op}
 }
 
+// feeGrid builds valid signed transfers whose fee is a boundary combination: gas in
+// {0, 1, sufficient, 2^64-1} x amount in {0, 1, balance, balance+1}, plus no fee at all. The
+// signers are the user accounts (the grid spends whole balances), in rotation.
+func (f *txFuzzer) feeGrid(base []*chainsim.GenTx, nn *nonces) []*Input {
+	sc := f.h.Sc
+	var out []*Input
+	k := 0
+	emitOne := func(fee *transaction.Fee, label string) {
+		signer := sc.Users[k%len(sc.Users)]
+		to := sc.Signers[(k+1)%len(sc.Signers)]
+		k++
+		nonce := nn.get(signer, base)
+		body := cbor.Marshal(&staking.Transfer{To: to.Addr, Amount: *quantity.NewFromUint64(1)})
+		bal := f.h.View.Account(signer.Addr).General.Balance
+		if fee == nil || fee.Amount.Cmp(&bal) <= 0 {
+			nn.m[signer.Addr] = nonce + 1 // passes authentication at delivery: the nonce advances
+		}
+		out = append(out, &Input{Data: f.envelope(signer, encodeTx(nonce, fee, string(staking.MethodTransfer), body)),
+			Aux: "layer=grid;method=" + string(staking.MethodTransfer) + ";fee=" + label, Op: "fee-grid"})
+	}
+	emitOne(nil, "nil")
+	for _, g := range []uint64{0, 1, 5000, ^uint64(0)} {
+		for ai := 0; ai < 4; ai++ {
+			signer := sc.Users[k%len(sc.Users)] // the signer emitOne is going to use
+			bal := f.h.View.Account(signer.Addr).General.Balance
+			var amt quantity.Quantity
+			switch ai {
+			case 1:
+				_ = amt.FromUint64(1)
+			case 2:
+				amt = *bal.Clone()
+			case 3:
+				amt = *bal.Clone()
+				_ = amt.Add(quantity.NewFromUint64(1))
+			}
+			emitOne(&transaction.Fee{Gas: transaction.Gas(g), Amount: amt}, fmt.Sprintf("gas%d/amount%s", g, []string{"0", "1", "balance", "balance+1"}[ai]))
+		}
+	}
+	return out
+}
+
 func sortStrings(s []string) {
 	for i := 1; i < len(s); i++ {
 		for j := i; j > 0 && s[j] < s[j-1]; j-- {
@@ -437,6 +481,26 @@ func (f *txFuzzer) extra(g *chainsim.TxGen, height int64, base []*chainsim.GenTx
 	}
 	nn := &nonces{f: f, m: map[staking.Address]uint64{}}
 	var out []*chainsim.GenTx
+	admit := func(fi *fuzzIn) {
+		f.cur = append(f.cur, fi)
+		if _, dup := f.curMap[string(fi.in.Data)]; !dup {
+			f.curMap[string(fi.in.Data)] = fi
+		}
+		out = append(out, &chainsim.GenTx{Raw: fi.in.Data, Method: "fuzz", Intent: "fuzz"})
+	}
+	// Deterministic fee/gas boundary grid on otherwise valid signed transfers, every fourth
+	// fuzzed block (before the random mutants, so that the predicted nonces hold).
+	if f.fuzzBlocks%4 == 0 {
+		for _, in := range f.feeGrid(base, nn) {
+			idx := f.nextIdx
+			f.nextIdx++
+			fi := &fuzzIn{idx: idx, in: in, height: height}
+			f.checkTx(fi)
+			f.st.Extra["fee_gas_grid_inputs"]++
+			admit(fi)
+		}
+	}
+	f.fuzzBlocks++
 	for k := 0; k < f.c.PerBlock; k++ {
 		idx := f.nextIdx
 		f.nextIdx++
@@ -460,11 +524,7 @@ func (f *txFuzzer) extra(g *chainsim.TxGen, height int64, base []*chainsim.GenTx
 			f.st.Extra["checktx_only_system_method"]++
 			continue
 		}
-		f.cur = append(f.cur, fi)
-		if _, dup := f.curMap[string(in.Data)]; !dup {
-			f.curMap[string(in.Data)] = fi
-		}
-		out = append(out, &chainsim.GenTx{Raw: in.Data, Method: "fuzz", Intent: "fuzz"})
+		admit(fi)
 	}
 	// From here on (PrepareProposal on the builder replica) a fatal error can only be
 	// attributed to the block; the taps refine this during the reference execution.
